@@ -130,15 +130,20 @@ theorem stackGoals_nonstack : ∀ (l : List Node), (∀ n : Node, n ∈ l → n.
 /-! ### states that differ in the work counter only -/
 
 section
-variable {c : Bool} {inst : Instance} {dom : List Nat}
+variable {c : Bool} {inst : Instance} {dom : List Nat} {fx : Bool}
 
-theorem Inv.work {s : St} (h : Inv c inst dom s) (w : Nat) : Inv c inst dom { s with work := w } :=
-  ⟨h.quiet, h.cacheOK, h.stackCo, h.nodup, h.disj, h.inDom, h.val, h.approx, h.stk, h.nonstk,
+theorem fixes_of_eq {s s' : St} (h : fx = true ∨ (QuietSt s ∧ s.interrupted = false))
+    (e1 : s'.oracle = s.oracle) (e2 : s'.oracleDefault = s.oracleDefault) (e3 : s'.interrupted = s.interrupted) :
+    fx = true ∨ (QuietSt s' ∧ s'.interrupted = false) :=
+  h.imp id (fun q => ⟨⟨by rw [e1]; exact q.1.1, by rw [e2]; exact q.1.2⟩, by rw [e3]; exact q.2⟩)
+
+theorem Inv.work {s : St} (h : Inv c inst dom fx s) (w : Nat) : Inv c inst dom fx { s with work := w } :=
+  ⟨h.fixes, h.amb, h.cacheOK, h.stackCo, h.nodup, h.disj, h.inDom, h.val, h.approx, h.stk, h.nonstk,
    h.cnt, h.just⟩
 
 theorem Step.work (s : St) (w : Nat) (lb : Min) : Step c inst s { s with work := w } lb :=
   ⟨⟨[], by simp, fun n hn => by cases hn⟩, StackExt.refl _, fun _ _ h => h, fun _ _ h => h,
-   fun k hu hd => absurd hd (hu _), rfl⟩
+   fun k hu hd => absurd hd (hu _), rfl, id, fun q => ⟨q, id⟩⟩
 
 end
 
